@@ -61,6 +61,9 @@ def main(tier, replay, t0):
             for x in c.cfgs:
                 g = c.gen[x["id"]]
                 if g.get("result") != "ok":
+                    v = probes.refusal_violation(c, x, "SOURCE item")
+                    if v:
+                        viol.append(v)
                     continue
                 base = {"case_id": c.id, "wgsl": c.wgsl, "options": x["opt"], "include_path": x.get("include_path")}
                 inv = g.get("inv", {})
